@@ -118,6 +118,10 @@ def run(ck):
                     fid = k["id"]
                 if mt.get("any_knob") and re.search(mt.get("error_class_regex", "$^"), cls.replace("-error[", "")):
                     fid = k["id"]
+                # decided on the case: a shape flag computed on the program's AST by the harness + the way it fails
+                if mt.get("shape") and (" " + mt["shape"]) in t and re.search(mt.get("error_class_regex", "$^"), cls.replace("-error[", "")) \
+                        and re.search(mt.get("result_regex", ""), r):
+                    fid = k["id"]
             key = (knob, cls)
             if fid is None:
                 found_disagreement = True
